@@ -154,6 +154,18 @@ def o16_1(tier):
             ctx.ensure(all(d in ends for d in deletes), "only end junctions of internal interfaces are flagged")
             want = [p for p in internal if not (p[0] in deletes and p[-1] in deletes)]
             ctx.ensure(used == want, "unknowns = internal interfaces minus those with both ends flagged, order kept")
+            # the restricted system keeps the equations of every junction that still has three remaining interfaces - flagged or not
+            rows = sorted(ctx.keys(ctx.get(fm, "map_vid_to_row")))
+            want_rows = sorted(j for j in info["three_cell_vertices"] if sum(1 for p in used if p[0] == j or p[-1] == j) >= 3)
+            ctx.ensure(rows == want_rows, "equations for every junction with >=3 cells and >=3 remaining interfaces (a flagged junction keeps its equations)")
+            mat = [ctx.list_of(r) for r in ctx.list_of(ctx.get(fm, "matrix"))]
+            ctx.ensure(len(mat) == 2 * len(want_rows) and all(len(r) == len(used) for r in mat), "restricted system: two rows per such junction, one column per remaining interface")
+            for j in rows:
+                r = ctx.item(ctx.get(fm, "map_vid_to_row"), j)
+                for ci, c in enumerate(used):
+                    if c[0] == j or c[-1] == j:
+                        beid = find_interface(ctx, fr, c)
+                        ctx.ensure(ctx.And(ctx.close(mat[r][ci], u[(beid, j)][0]), ctx.close(mat[r + 1][ci], u[(beid, j)][1])), f"junction {j}, remaining interface {ci}: its versor")
         return h
     out = []
     # a junction where four interfaces meet (quick: only that junction may be flagged; thorough: every end)
